@@ -328,6 +328,7 @@ void ref_link_legacy(rlink *l, int is_left, const char *name, uint64_t corr) {
 	memcpy(l->sib + 3, name, k);
 	l->sib_len = 29;
 }
+uint64_t ref_meta_seqnr = 7;   /* sequence number written by ref_link_meta(with_extra) */
 void ref_link_meta(rlink *l, int is_left, const char *client, int padding_mode, int with_extra, uint64_t corr) {
 	vbuf b, body;
 	memset(l, 0, sizeof *l);
@@ -336,7 +337,7 @@ void ref_link_meta(rlink *l, int is_left, const char *client, int padding_mode, 
 	rtlv_put_str(&body, 0x01, client);
 	if (with_extra) {
 		rtlv_put_str(&body, 0x02, "machine");
-		rtlv_put_u64(&body, 0x03, 70007);   /* beyond one octet, and beyond the SDK's pool of small integers */
+		rtlv_put_u64(&body, 0x03, ref_meta_seqnr);
 		rtlv_put_u64(&body, 0x04, 1500000000000000ULL);
 	}
 	if (padding_mode == 1) {
